@@ -21,8 +21,8 @@ use domain::base::rdata::ComposeRecordData;
 use domain::base::{Message, Name, ParsedName, Record, ToName, Ttl};
 use domain::crypto::sign::{generate, GenerateParams, KeyPair, SecretKeyBytes, SignError, SignRaw, Signature};
 use domain::dnssec::sign::keys::SigningKey;
-use domain::dnssec::sign::records::Rrset;
-use domain::dnssec::sign::signatures::rrsigs::{sign_rrset, sign_sorted_rrset_in};
+use domain::dnssec::sign::records::{Rrset, SortedRecords};
+use domain::dnssec::sign::signatures::rrsigs::{sign_rrset, sign_sorted_rrset_in, sign_sorted_zone_records, GenerateRrsigConfig};
 use domain::dnssec::validator::base::{DnskeyExt, RrsigExt};
 use domain::rdata::dnssec::Timestamp;
 use domain::rdata::{AllRecordData, Dnskey, Rrsig, ZoneRecordData};
@@ -413,7 +413,7 @@ fn lib_verify(sig: &Sig, key: &Dnskey<Vec<u8>>, data: &[u8]) -> Result<bool, Str
     catch_mut(move || sig.verify_signed_data(&key, &data).is_ok())
 }
 
-struct Ctx { keys: Vec<RecKey>, n_sign: u64, n_verify: u64, n_tamper: u64, rejected_gen: u64 }
+struct Ctx { keys: Vec<RecKey>, n_sign: u64, n_verify: u64, n_tamper: u64, rejected_gen: u64, dup_views: u64, dup_views_verified: u64, zone_rrsigs: u64 }
 
 fn shuffle<T>(r: &mut Rng, v: &mut Vec<T>) { for i in (1..v.len()).rev() { let j = r.below(i as u64 + 1) as usize; v.swap(i, j); } }
 
@@ -446,7 +446,9 @@ fn run_rrset(out: &mut Out, r: &mut Rng, cx: &mut Ctx, idx: u64) {
         } else { gen_rdata(r, t, &apex) };
         if !datas.iter().any(|x| raw_canonical(x) == raw_canonical(&d)) { datas.push(d); }
     }
-    let recs: Vec<Rec> = datas.iter().map(|d| Rec { owner: owner.clone(), class, ttl, rtype: t, data: d.clone() }).collect();
+    // zone data may spell the owner differently from record to record
+    let mixed_owner_case = r.chance(1, 4);
+    let recs: Vec<Rec> = datas.iter().map(|d| Rec { owner: if mixed_owner_case { flip_case(r, &owner) } else { owner.clone() }, class, ttl, rtype: t, data: d.clone() }).collect();
     let zone = match parse_zone(&message(&recs, false)) { Ok(z) => z, Err(_) => { cx.rejected_gen += 1; return; } };
     let (inc, exp) = match r.below(6) {
         0 => (0xFFFF_FF00u32, 0x0000_0100u32),            // expiration numerically below inception, serially after
@@ -462,7 +464,7 @@ fn run_rrset(out: &mut Out, r: &mut Rng, cx: &mut Ctx, idx: u64) {
 
     // ---- sign (T2 kind sr)
     let mut case = format!("sr {} {} {} {} {} {}", kalg, ktag, hex(&wire(&apex)), inc, exp, zone.len());
-    for z in &zone { case.push_str(&rec_words(&wire(&owner), t, class, ttl, &lib_canonical(z.data()))); }
+    for z in &zone { case.push_str(&rec_words(&wire(&labels_of(z.owner())), t, class, ttl, &lib_canonical(z.data()))); }
     out.begin(&case);
     *cx.keys[ki].seen.borrow_mut() = None;
     let signed = catch_mut(|| {
@@ -483,7 +485,7 @@ fn run_rrset(out: &mut Out, r: &mut Rng, cx: &mut Ctx, idx: u64) {
     // RRSIG RR envelope and fields (RFC 4035 2.2)
     let want_labels = if wildcard { owner.len() - 1 } else { owner.len() } as u8;
     out.check(f.labels == want_labels && f.tc == t && f.ottl == ttl && f.exp == exp && f.inc == inc && f.kt == ktag && f.alg == kalg
-        && lower(&f.signer) == lower(&apex) && labels_of(rrsig_rr.owner()) == owner && rrsig_rr.class().to_int() == class && rrsig_rr.ttl().as_secs() == ttl,
+        && lower(&f.signer) == lower(&apex) && lower(&labels_of(rrsig_rr.owner())) == lower(&owner) && rrsig_rr.class().to_int() == class && rrsig_rr.ttl().as_secs() == ttl,
         "rrsig_fields_wrong", &case, &format!("{:?}", f));
     // signer octets against the independent RFC construction
     let own_canon: Vec<(Nm, u16, u16, Vec<u8>)> = datas.iter().map(|d| (owner.clone(), t, class, raw_canonical(d))).collect();
@@ -549,6 +551,18 @@ fn run_rrset(out: &mut Out, r: &mut Rng, cx: &mut Ctx, idx: u64) {
         if let Some((seen, _)) = &honest {
             if let Ok(sd) = lib_signed_data(&s2, seen) {
                 out.check(lib_verify(&s2, &dnskey, &sd) == Ok(true), "honest_verify_fails_signer_case", &case, "");
+            }
+        }
+    }
+
+    // a resolver view with one RR twice: the code keeps duplicates (RFC 4034 6.3 lets an
+    // implementation treat them as a protocol error), so this is counted, not judged
+    if idx % 7 == 0 && cx.keys[ki].inner.is_some() {
+        let mut v = plain.clone(); v.push(plain[0].clone());
+        if let Ok(seen) = parse_resolver(&message(&v, false)) {
+            if let Ok(sd) = lib_signed_data(&sig, &seen) {
+                cx.dup_views += 1;
+                if lib_verify(&sig, &dnskey, &sd) == Ok(true) { cx.dup_views_verified += 1; }
             }
         }
     }
@@ -675,6 +689,131 @@ fn run_signer_cases(out: &mut Out, r: &mut Rng) {
     out.case(&case, &obs, obs.starts_with("Ok"), if sorted_api { "sign_sorted" } else { "sign_rrset_fake" });
 }
 
+/// a small zone through SortedRecords and sign_sorted_zone_records: every RRSIG
+/// that comes back must verify over the RRset it names and be made over the
+/// RFC octets
+fn run_zone(out: &mut Out, r: &mut Rng, cx: &mut Ctx, idx: u64) {
+    let mut apex = gen_name(r, 2, 40);
+    if apex.is_empty() { apex.push(b"zone".to_vec()); }
+    let ttl = r.range(1, 86400) as u32;
+    let mut specs: Vec<Rec> = vec![];
+    let mut add = |r: &mut Rng, specs: &mut Vec<Rec>, owner: &Nm, t: u16, n: u64, ttl: u32| {
+        let mut ds: Vec<RData> = vec![];
+        for _ in 0..n { let d = gen_rdata(r, t, &apex); if !ds.iter().any(|x| raw_canonical(x) == raw_canonical(&d)) { ds.push(d); } }
+        for d in ds { let o = if r.chance(1, 3) { flip_case(r, owner) } else { owner.clone() }; specs.push(Rec { owner: o, class: 1, ttl, rtype: t, data: d }); }
+    };
+    add(r, &mut specs, &apex, 6, 1, ttl); add(r, &mut specs, &apex, 2, 2, ttl); add(r, &mut specs, &apex, 48, 2, ttl);
+    for _ in 0..r.range(2, 6) {
+        let mut o = gen_name(r, 2, 40);
+        if o.is_empty() { o.push(b"h".to_vec()); }
+        if r.chance(1, 4) { o.insert(0, b"*".to_vec()); }
+        o.extend(apex.iter().cloned());
+        if wire_len(&o) > 200 { continue; }
+        for _ in 0..r.range(1, 3) { let t = *r.pick(&[1u16, 28, 16, 15, 33, 52, 65, 257, 13, 99, 5, 35]); let t_ttl = r.range(1, 86400) as u32;
+            if specs.iter().any(|x| lower(&x.owner) == lower(&o) && (x.rtype == t || x.rtype == 5 || t == 5)) { continue; }
+            let cnt = if t == 5 { 1 } else { r.range(1, 3) };
+            add(r, &mut specs, &o, t, cnt, t_ttl); }
+    }
+    // a delegation with DS and glue
+    let mut cut = vec![b"sub".to_vec()]; cut.extend(apex.iter().cloned());
+    if !specs.iter().any(|x| lower(&x.owner) == lower(&cut)) {
+        add(r, &mut specs, &cut, 2, 2, ttl); add(r, &mut specs, &cut, 43, 1, ttl);
+        let mut glue = vec![b"ns".to_vec()]; glue.extend(cut.iter().cloned()); add(r, &mut specs, &glue, 1, 1, ttl);
+    }
+    shuffle(r, &mut specs);
+    let mut zone: Vec<ZRec> = vec![];
+    for chunk in specs.chunks(20) { match parse_zone(&message(chunk, false)) { Ok(z) => zone.extend(z), Err(_) => { cx.rejected_gen += 1; return; } } }
+    let ki = (idx as usize) % cx.keys.len();
+    if cx.keys[ki].inner.is_none() { return; }
+    let key = SigningKey::new(to_name(&apex), 256, RecKeyRef(&cx.keys[ki]));
+    let dnskey = cx.keys[ki].dnskey.clone();
+    let (inc, exp) = { let a = r.u32(); (a, a.wrapping_add(r.range(1, 1 << 24) as u32)) };
+    let case = format!("zone seed-index {} apex {} records {} key {}", idx, hex(&wire(&apex)), zone.len(), cx.keys[ki].alg.to_int());
+    out.begin(&case);
+    let zone2 = zone.clone();
+    let apex_name = to_name(&apex);
+    let res = catch_mut(|| {
+        let sorted: SortedRecords<Name<Bytes>, ZoneRecordData<Bytes, Name<Bytes>>> = SortedRecords::from(zone2);
+        sign_sorted_zone_records(&apex_name, sorted.owner_rrs(), &[&key], &GenerateRrsigConfig::new(Timestamp::from(inc), Timestamp::from(exp))).map_err(|e| format!("{}", e))
+    });
+    let rrsigs = match res {
+        Err(p) => { out.check(false, "panic_sign", &case, &p); return; }
+        Ok(Err(e)) => { out.check(false, "honest_sign_fails", &case, &e); return; }
+        Ok(Ok(v)) => v,
+    };
+    out.oracle_case(&case, !rrsigs.is_empty(), "zone");
+    out.check(!rrsigs.is_empty(), "zone_nothing_signed", &case, "");
+    for rr in &rrsigs {
+        cx.zone_rrsigs += 1;
+        let sig: Sig = rr.data().clone();
+        let f = sig_fields(&sig);
+        let owner = labels_of(rr.owner());
+        let mut members: Vec<ZRec> = zone.iter().filter(|z| lower(&labels_of(z.owner())) == lower(&owner) && z.rtype().to_int() == f.tc).cloned().collect();
+        let c = format!("{} rrsig owner {} type {}", case, hex(&wire(&owner)), f.tc);
+        let sig2 = sig.clone();
+        let sd = catch_mut(move || { let mut buf: Vec<u8> = vec![]; sig2.signed_data(&mut buf, &mut members[..]).unwrap(); buf });
+        match sd {
+            Err(p) => out.check(false, "panic_signed_data", &c, &p),
+            Ok(sd) => {
+                out.check(lib_verify(&sig, &dnskey, &sd) == Ok(true), "zone_rrsig_does_not_verify", &c, "");
+                let canon: Vec<(Nm, u16, u16, Vec<u8>)> = specs.iter().filter(|x| lower(&x.owner) == lower(&owner) && x.rtype == f.tc)
+                    .map(|x| (x.owner.clone(), x.rtype, x.class, raw_canonical(&x.data))).collect();
+                let rfc = rfc_signed_data(&f, &canon);
+                let cls = if sd == rfc { "signed_data_not_rfc".to_string() } else { not_rfc_class(&f, &canon, &sd) };
+                out.check(sd == rfc, &cls, &c, &format!("validator {} rfc {}", hex(&sd), hex(&rfc)));
+            }
+        }
+    }
+}
+
+/// signatures made by other signers (ED25519.nl DNSKEY RRset; RFC 4035 B.6
+/// wildcard expansion example): the validator primitives must accept them
+fn known_answers(out: &mut Out) {
+    use domain::utils::base64;
+    use std::str::FromStr;
+    let b64 = |s: &str| base64::decode::<Vec<u8>>(s).expect("base64");
+    struct Ka { name: &'static str, recs: Vec<Rec>, f: SigF, sig: Vec<u8>, key: Dnskey<Vec<u8>> }
+    let dnskey_rd = |flags: u16, alg: u8, pk: &[u8]| { let mut v = u16b(flags); v.push(3); v.push(alg); v.extend_from_slice(pk); vec![Part::Raw(v)] };
+    let mut kas: Vec<Ka> = vec![];
+    {
+        let ksk = b64("m1NELLVVQKl4fHVn/KKdeNO0PrYKGT3IGbYseT8XcKo=");
+        let zsk = b64("2tstZAjgmlDTePn0NVXrAHBJmg84LoaFVxzLl1anjGI=");
+        let owner: Nm = vec![b"ED25519".to_vec(), b"nl".to_vec()];
+        kas.push(Ka { name: "ed25519_nl_dnskey",
+            recs: vec![Rec { owner: owner.clone(), class: 1, ttl: 0, rtype: 48, data: dnskey_rd(257, 15, &ksk) },
+                       Rec { owner: owner.clone(), class: 1, ttl: 0, rtype: 48, data: dnskey_rd(256, 15, &zsk) }],
+            f: SigF { tc: 48, alg: 15, labels: 2, ottl: 3600, exp: 1559174400, inc: 1557360000, kt: 45515, signer: owner },
+            sig: b64("hvPSS3E9Mx7lMARqtv6IGiw0NE0uz0mZewndJCHTkhwSYqlasUq7KfO5QdtgPXja7YkTaqzrYUbYk01J8ICsAA=="),
+            key: Dnskey::new(257, 3, SecurityAlgorithm::ED25519, ksk.clone()).unwrap() });
+    }
+    {
+        let pk = b64("AQOy1bZVvpPqhg4j7EJoM9rI3ZmyEx2OzDBVrZy/lvI5CQePxXHZS4i8dANH4DX3tbHol61ek8EFMcsGXxKciJFHyhl94C+NwILQdzsUlSFovBZsyl/NX6yEbtw/xN9ZNcrbYvgjjZ/UVPZIySFNsgEYvh0z2542lzMKR4Dh8uZffQ==");
+        let ts = |s: &str| Timestamp::from_str(s).unwrap().into_int();
+        kas.push(Ka { name: "rfc4035_b6_wildcard",
+            recs: vec![Rec { owner: vec![b"a".to_vec(), b"z".to_vec(), b"w".to_vec(), b"example".to_vec()], class: 1, ttl: 3600, rtype: 15,
+                data: vec![Part::Raw(u16b(1)), Part::Name { n: vec![b"ai".to_vec(), b"example".to_vec()], lower: true, compress: true }] }],
+            f: SigF { tc: 15, alg: 5, labels: 2, ottl: 3600, exp: ts("20040509183619"), inc: ts("20040409183619"), kt: 38519, signer: vec![b"example".to_vec()] },
+            sig: b64("OMK8rAZlepfzLWW75Dxd63jy2wswESzxDKG2f9AMN1CytCd10cYISAxfAdvXSZ7xujKAtPbctvOQ2ofO7AZJ+d01EeeQTVBPq4/6KCWhqe2XTjnkVLNvvhnc0u28aoSsG0+4InvkkOHknKxw4kX18MMR34i8lC36SR5xBni8vHI="),
+            key: Dnskey::new(256, 3, SecurityAlgorithm::RSASHA1, pk).unwrap() });
+    }
+    for ka in kas {
+        let sig = mk_sig(&ka.f, &ka.sig);
+        for compress in [false, true] {
+            let Ok(seen) = parse_resolver(&message(&ka.recs, compress)) else { out.check(false, "known_answer_rejected", ka.name, "parse"); continue };
+            let c = sd_case(&ka.f, &seen);
+            out.begin(&c);
+            match lib_signed_data(&sig, &seen) {
+                Ok(sd) => {
+                    out.case(&c, &hex(&sd), true, "signed_data_known_answer");
+                    out.check(ka.key.key_tag() == ka.f.kt, "key_tag_mismatch", &c, ka.name);
+                    out.check(lib_verify(&sig, &ka.key, &sd) == Ok(true), &format!("known_answer_rejected_{}", ka.name), &c, "a signature made by another signer does not verify");
+                }
+                Err(p) => { out.case(&c, "Panic", false, "signed_data_known_answer"); out.check(false, "panic_signed_data", &c, &p); }
+            }
+        }
+    }
+}
+
 fn main() {
     let a = args();
     let mut out = Out::new(&a, "C12", 120);
@@ -694,7 +833,8 @@ fn main() {
         if let Some(kp) = load_bind_key(&repo, base) { keys.push(real_key(kp)); rsa += 1; }
     }
     let n_real = keys.len();
-    let mut cx = Ctx { keys, n_sign: 0, n_verify: 0, n_tamper: 0, rejected_gen: 0 };
+    if std::env::var("C12_TIMING").is_ok() { eprintln!("keys ready"); }
+    let mut cx = Ctx { keys, n_sign: 0, n_verify: 0, n_tamper: 0, rejected_gen: 0, dup_views: 0, dup_views_verified: 0, zone_rrsigs: 0 };
 
     // ---- corpus: key tags and DS digests of the repository's BIND-generated keys (independent known answers)
     let dir = format!("{}/test-data/dnssec-keys/", repo);
@@ -725,6 +865,8 @@ fn main() {
         }
     }
 
+    known_answers(&mut out);
+
     // ---- RRsets: sign, rebuild, verify, tamper
     let n_sets = if a.thorough { 6000 } else { 300 } * a.scale;
     let mut idx = 0u64;
@@ -733,6 +875,16 @@ fn main() {
         let mut rr = r.fork();
         if !out.wants(idx) { continue; }
         run_rrset(&mut out, &mut rr, &mut cx, idx);
+    }
+    if std::env::var("C12_TIMING").is_ok() { eprintln!("rrsets done"); }
+    // ---- whole zones through SortedRecords / sign_sorted_zone_records
+    for _ in 0..(if a.thorough { 600 } else { 40 } * a.scale) {
+        idx += 1;
+        let mut rr = r.fork();
+        if !out.wants(idx) { continue; }
+        let t0 = std::time::Instant::now();
+        run_zone(&mut out, &mut rr, &mut cx, idx);
+        if std::env::var("C12_TIMING").is_ok() { eprintln!("zone {} key {} {:?}", idx, idx as usize % cx.keys.len(), t0.elapsed()); }
     }
     // ---- signer refusals / given order / duplicates (fake key, T2)
     for _ in 0..(if a.thorough { 8000 } else { 600 } * a.scale) {
@@ -791,6 +943,7 @@ fn main() {
         out.check(lc as usize == want, "label_count_wrong", &c3, &format!("{}", lc));
         let _ = oname;
     }
+    if std::env::var("C12_TIMING").is_ok() { eprintln!("free cases done"); }
     // ---- key tags and DS digests
     for i in 0..(if a.thorough { 20000 } else { 1500 } * a.scale) {
         idx += 1;
@@ -840,6 +993,8 @@ fn main() {
     }
     let extra = [("rrsets_signed", format!("{}", cx.n_sign)), ("verifications", format!("{}", cx.n_verify)),
         ("alterations", format!("{}", cx.n_tamper)), ("real_keys", format!("{}", n_real)), ("rsa_keys", format!("{}", rsa)),
-        ("bind_known_answers", format!("{}", known)), ("generator_rejected", format!("{}", cx.rejected_gen))];
+        ("bind_known_answers", format!("{}", known)), ("generator_rejected", format!("{}", cx.rejected_gen)),
+        ("zone_rrsigs_verified", format!("{}", cx.zone_rrsigs)), ("duplicate_rr_views", format!("{}", cx.dup_views)),
+        ("duplicate_rr_views_that_verified", format!("{}", cx.dup_views_verified))];
     out.finish(&extra);
 }
